@@ -8,6 +8,9 @@ def get_prop(pid):
     if pid in ("C01", "C07"):
         import p_mgr
         return p_mgr.MgrProp(pid)
+    if pid in ("C12",):
+        import p_grid
+        return p_grid.MoveProp(pid)
     raise SystemExit(f"unknown property {pid}")
 
 
